@@ -1,5 +1,5 @@
 (* Properties/C02.v — A partition is a faithful map id -> (vector, metadata) with exact errors. *)
-From Verif Require Import Base.Prelude Store.Spec Store.Partition Store.Proofs Store.Simple Store.Refuted Generated.Facts.
+From Verif Require Import Base.Prelude Store.Spec Store.Partition Store.Proofs Store.Simple Store.Refuted Store.Translated Generated.Translated Generated.Facts.
 Open Scope N_scope.
 
 (* tie (a): the apply functions and the counters have the modelled shape in the source now *)
@@ -7,6 +7,13 @@ Lemma C02_facts_ok :
   update_allocates_nil_map = Known true /\ update_merge_keeps_old = Known true /\ update_reuses_level = Known true /\
   store_counters_shape = Known true /\ vertex_bytes_shape = Known true /\ process_dispatch_shape = Known true.
 Proof. repeat split; reflexivity. Qed.
+
+(* tie (b): the byte counts as TRANSLATED from index/hnsw_vertex.go and index/metadata.go on this run are the model's:
+   a vertex accounts 16 + 4·dim + metadata bytes (64-bit wrap written out), metadata the lengths of its keys and values *)
+Theorem C02_bytes_translated : forall v m,
+  go_vertex_bytesSize (N.of_nat (List.length v)) (meta_bytes m) = wrap (item_bytes v m) /\
+  go_Metadata_bytesSize (lens m) = Z.of_N (meta_bytes m).
+Proof. intros v m. split; [apply go_vertex_bytesSize_is_model|apply go_bytesSize_is_model]. Qed.
 
 (* Refinement, for EVERY index whose Insert / Remove / GetVertex satisfy the store contract (the simple index
    below and the HNSW index of C01): all logs over any ids, single and batch forms.  Outcomes equal the
@@ -49,6 +56,7 @@ Theorem C02_update_nilmeta_refuted :
 Proof. exact update_nilmeta_refuted. Qed.
 
 Print Assumptions C02_map.
+Print Assumptions C02_bytes_translated.
 Print Assumptions C02_simple.
 Print Assumptions C02_counts.
 Print Assumptions C02_update_nilmeta_refuted.
